@@ -16,6 +16,9 @@ TopoObs(S) == [nodes |-> S, edges |-> EdgesOf(slot, S), connected |-> Connected(
 (* views after Topology::filter_edges with an orientation predicate: asymmetric graphs *)
 AsymObs(dir) == LET E == {e \in EdgesOf(slot, Mods) : IF dir = "lt" THEN e.from < e.to ELSE e.from > e.to} IN
                 [dir |-> dir, view |-> [nodes |-> Mods, edges |-> E, connected |-> ConnectedE(Mods, E), bidirectional |-> BidirectionalE(E)]]
+(* views after filter_edges removed the one edge that starts at gate k (its reverse edge, if any, stays) *)
+CutObs(k) == LET E == {e \in EdgesOf(slot, Mods) : e.g1 # k} IN
+             [cut |-> k, view |-> [nodes |-> Mods, edges |-> E, connected |-> ConnectedE(Mods, E), bidirectional |-> BidirectionalE(E)]]
 DijkObs(src) == [src |-> src,
                  targets |-> {[v |-> v, first |-> FirstEdges(slot, Mods, src, v)] :
                                 v \in {w \in Mods \ {src} : Dist(slot, Mods, src)[w] <= NM}}]
@@ -25,6 +28,7 @@ Obs == [calls |-> hist,
         spanned |-> {[root |-> r, view |-> TopoObs(Reach(slot, r))] : r \in Mods},
         filtered |-> {[keep |-> S, view |-> TopoObs(S)] : S \in SubsetsOfMods},
         asym |-> {AsymObs("lt"), AsymObs("gt")},
+        cut |-> {CutObs(k) : k \in EndGates(slot)},
         dijkstra |-> {DijkObs(m) : m \in Mods}]
 Emit == (ncalls = MaxCalls \/ dead) => PrintT(<<"REPLAY", ToJson(Obs)>>)
 =============================================================================
